@@ -68,7 +68,7 @@ RULE = ("(a) histories of 1-12 requests on ONE loopback connection handled by th
         "Coq parse_responses (oracle: exactly one well-formed response per request, in order, nothing left over, connection still usable, HEAD "
         "announces GET's length) and the parsed list is compared with the model's prediction (version, status, reason, content-range, "
         "accept-ranges, connection, x-tag, reason headers, body; for a content-coded answer the decoded body, and only the framing when a "
-        "range of a coded representation was asked; answers of the CORS / 406 machinery are framed but not predicted). (b) kvarn_async::write::"
+        "range of a coded representation was asked (incl. its 416 when the coded form is shorter than the range start); answers of the CORS / 406 machinery are framed but not predicted). (b) kvarn_async::write::"
         "response called directly on random version/status/headers/body against print_response, byte for byte. distinct_nontrivial counts "
         "distinct model outputs")
 ASSUMPTIONS = [
@@ -146,7 +146,7 @@ def rand_body(rng, n):
     return bytes(rng.choice(b"abcdefghijklmnopqrstuvwxyz0123456789 \r\nGETPOSTHTTP/1.1") for _ in range(n))
 
 
-def rand_request(rng, body_ok=True):
+def rand_request(rng, body_ok=True, origin_p=1.0):
     method = rng.choice([b"GET"] * 5 + [b"HEAD"] * 3 + [b"POST"] * 3 + [b"OPTIONS"] * 2 + [b"PUT"])
     target = rng.choice(TARGETS)
     hs = []
@@ -157,7 +157,7 @@ def rand_request(rng, body_ok=True):
         hs.append((b"range", r))
     if i is not None:
         hs.append((b"if-modified-since", i))
-    if o is not None:
+    if o is not None and rng.random() < origin_p:
         hs.append((b"origin", o))
     body, early = b"", 0
     if method in (b"POST", b"PUT") and body_ok:
@@ -170,10 +170,10 @@ def rand_request(rng, body_ok=True):
     return R(method, target, hs, body, early)
 
 
-def rand_sequence(rng, n):
+def rand_sequence(rng, n, origin_p=1.0):
     reqs = []
     while len(reqs) < n:
-        r = rand_request(rng)
+        r = rand_request(rng, origin_p=origin_p)
         reqs.append(r)
         # pairs HEAD/GET of one resource, and repeats (cache hits, counters)
         if rng.random() < 0.25 and len(reqs) < n:
@@ -213,12 +213,14 @@ def generate(rng, tier):
     cases.append(conn_case(make_cfg(limit=1, wait_close=5000), [R(b"GET", b"/f.txt"), R(b"GET", b"/f.txt"), R(b"HEAD", b"/f.txt"), R(b"GET", b"/f.txt"), R(b"GET", b"/f.txt")], "limiter-drop", spec=False))
 
     # ---- generated histories
-    nseq = 4200 if thorough else 250
+    nseq = 9000 if thorough else 280
     for k in range(nseq):
         n = rng.randint(1, 12)
         limit = rng.choice([0] * 5 + [4, 5, 6])
-        c = make_cfg(cache=rng.random() < 0.7, default_ext=rng.random() < 0.3, disable_ims=rng.random() < 0.15, limit=limit)
-        reqs = rand_sequence(rng, n)
+        dext = rng.random() < 0.3
+        c = make_cfg(cache=rng.random() < 0.7, default_ext=dext, disable_ims=rng.random() < 0.15, limit=limit)
+        # with the default extensions an Origin header makes the rest of the history unpredicted (CORS, C13): keep it rare there
+        reqs = rand_sequence(rng, n, origin_p=0.15 if dext else 1.0)
         last_nohost = rng.random() < 0.06
         if last_nohost:
             m = rng.choice([b"GET", b"HEAD", b"POST"])
@@ -227,7 +229,7 @@ def generate(rng, tier):
         cases.append(conn_case(c, reqs, "history-nohost-last" if last_nohost else ("history-limited" if limit else "history")))
     if thorough:
         # the same through a RunConfig::execute server on a loopback port (its accept loop shares the limiter: disabled)
-        for k in range(400):
+        for k in range(1000):
             c = make_cfg(cache=rng.random() < 0.7, default_ext=rng.random() < 0.3, server=True)
             cases.append(conn_case(c, rand_sequence(rng, rng.randint(1, 12)), "server-history"))
     else:
@@ -335,7 +337,13 @@ def compare(c, i, m):
         psel = [(h[1][0][1], h[1][1][1]) for h in phs]
         has_range = any(h[1][0][1] == b"range" for h in reqs[k][1][2][1])
         is_head = reqs[k][1][0][1] == b"HEAD"
-        if enc in (None, b"identity"):
+        ae = [h[1][1][1] for h in reqs[k][1][2][1] if h[1][0][1] == b"accept-encoding"]
+        if (has_range and ae and ae[0] != b"identity" and st == 416 and pst == 206
+                and _hdr(hs, b"reason") == b"Range start after end of body"):
+            # the range was applied to a coded representation shorter than the identity one (the 416 page itself is not coded)
+            if ver != pver or _hdr(hs, b"connection") != dict(psel).get(b"connection"):
+                return False
+        elif enc in (None, b"identity"):
             if (ver, st, reason, sel, body) != (pver, pst, preason, psel, pbody):
                 return False
         elif has_range:
@@ -398,8 +406,9 @@ def directed(rng, mismatches):
 def extra_coverage(cases, impl, model, spec):
     un = sum(1 for c in cases if c.meta.get("unmodelled"))
     nreq = sum(len(c.x[1][1][1]) for c in cases if c.comp.startswith("h1w.conn"))
+    unpred = sum(model.get(c.id, "").count("(L (N 7))") for c in cases if c.comp.startswith("h1w.conn"))
     return {"connection_histories": sum(1 for c in cases if c.comp.startswith("h1w.conn")), "requests_sent": nreq,
-            "histories_outside_the_connection_model": un}
+            "responses_framed_but_not_predicted": unpred, "histories_outside_the_connection_model": un}
 
 
 def main(tier, seed, replay):
